@@ -703,9 +703,16 @@ func HashMapOfValueCopy(vm *Thread, target *HashMapOfValue, source *HashMapOfVal
 		if i == -1 {
 			panic("no room in target hashmap during copy")
 		}
+		existing := target.Table[i]
+		if existing.Key().IsUndefined() {
+			// the key was not present in the target
+			target.Elements++
+			if existing.Value().IsUndefined() {
+				// the slot was completely empty, not a deleted one
+				target.OccupiedSlots++
+			}
+		}
 		target.Table[i] = entry
-		target.OccupiedSlots++
-		target.Elements++
 	}
 
 	return value.Undefined
@@ -726,9 +733,16 @@ func HashMapOfValueCopyInterface(vm *Thread, target *HashMapOfValue, source Hash
 		if i == -1 {
 			panic("no room in target hashmap during copy")
 		}
+		existing := target.Table[i]
+		if existing.Key().IsUndefined() {
+			// the key was not present in the target
+			target.Elements++
+			if existing.Value().IsUndefined() {
+				// the slot was completely empty, not a deleted one
+				target.OccupiedSlots++
+			}
+		}
 		target.Table[i] = entry
-		target.OccupiedSlots++
-		target.Elements++
 	}
 
 	return value.Undefined
